@@ -67,6 +67,20 @@ impl RDecoder {
     #[verifier::external_body] pub fn read_to_end(&mut self, out: &mut Vec<u8>) -> (r: IoResult<usize>)
         ensures lib_dec(old(self).algo(), old(self).input()) matches Some(x) ==> r is Ok && final(out)@ == old(out)@ + x { unimplemented!() }
 }
+// std::io::Read as seen by helper code: `read` may return any prefix
+pub mod io {
+    pub use super::IoError as Error;
+    pub type Result<T> = core::result::Result<T, super::IoError>;
+    pub trait Read {
+        fn read(&mut self, buf: &mut [u8]) -> (r: Result<usize>);
+        fn read_exact(&mut self, buf: &mut [u8]) -> (r: Result<()>);
+    }
+}
+pub use io::Read;
+impl io::Read for RDecoder {
+    #[verifier::external_body] fn read(&mut self, buf: &mut [u8]) -> (r: io::Result<usize>) { unimplemented!() }
+    #[verifier::external_body] fn read_exact(&mut self, buf: &mut [u8]) -> (r: io::Result<()>) { unimplemented!() }
+}
 pub struct GzDecoder; pub struct ZlibDecoder; pub struct FrameDecoder; pub struct Decompressor;
 impl GzDecoder { #[verifier::external_body] pub fn new(s: &[u8]) -> (r: RDecoder) ensures r.algo() == Algo::Gzip, r.input() == s@ { unimplemented!() } }
 impl ZlibDecoder { #[verifier::external_body] pub fn new(s: &[u8]) -> (r: RDecoder) ensures r.algo() == Algo::Zlib, r.input() == s@ { unimplemented!() } }
